@@ -46,3 +46,16 @@ for sid in a.ids:
         sh(["git", "-C", "/repo", "worktree", "remove", "--force", wt]); shutil.rmtree(wt, ignore_errors=True)
         rc, o = sh([os.path.join(ROOT, "check"), prop], cwd=ROOT)
         print("   restore: rc=%d %s" % (rc, (o.splitlines() or [""])[0][:150]))
+        if rc != 0:
+            # the unchanged tree is red for this property: the score above means nothing
+            try:
+                meta = json.load(open(os.path.join(d, "meta.json")))
+                q = meta.get("detection", {}).get(a.tier)
+                if q:
+                    q["baseline_red"] = True
+                    meta["detection"].pop(a.tier)
+                    meta.setdefault("invalid_runs", []).append(q)
+                    json.dump(meta, open(os.path.join(d, "meta.json"), "w"), indent=1)
+                print("   BASELINE RED for %s: detection record of %s discarded" % (prop, sid))
+            except Exception as e:
+                print("   (could not discard record: %s)" % e)
